@@ -263,6 +263,10 @@ type Known struct {
 	Key      string `json:"key"`
 	Commit   string `json:"commit,omitempty"`
 	What     string `json:"what"`
+	// Cases, if present, is the number of enumerated cases that hit this key on the tree the finding was recorded
+	// on, per tier ("quick", "thorough"). More failing cases than recorded means that another violation hides
+	// behind the listed key: it is reported, not suppressed.
+	Cases map[string]int64 `json:"cases,omitempty"`
 }
 
 func loadKnown(id string) (map[string]Known, error) {
@@ -837,6 +841,22 @@ func doParent(spec Spec, tier string, seed int64, b time.Duration, nworkers int)
 		if k, ok := known[key]; ok {
 			fmt.Printf("KNOWN-FINDING: property=%s key=%s %s (cases=%d)\n", spec.ID, key, k.What, v.N)
 			nKnown++
+			if rec, has := k.Cases[tier]; !has || v.N <= rec {
+				continue
+			}
+			// the listed finding fails on more cases than when it was recorded
+			v = &Violation{Key: key + ".more-cases-than-recorded", N: v.N, Case: v.Case,
+				What: fmt.Sprintf("the known finding %s now fails on %d enumerated cases, %d were recorded for this tier: a different violation hides behind the listed key (first failing case of the key: %s)", key, v.N, k.Cases[tier], v.What)}
+			sum := sha256.Sum256(append([]byte(v.Key+"\x00"), v.Case...))
+			dir := filepath.Join(OutDir, "replays", spec.ID)
+			os.MkdirAll(dir, 0755)
+			path := filepath.Join(dir, hex.EncodeToString(sum[:8])+".json")
+			data, _ := json.MarshalIndent(v, "", " ")
+			os.WriteFile(path, data, 0644)
+			fmt.Printf("VIOLATION property=%s replay=%s\n", spec.ID, path)
+			fmt.Printf("  key=%s cases=%d: %s\n", v.Key, v.N, v.What)
+			nViol++
+			exit = 1
 			continue
 		}
 		ok, why := confirm(spec, v, tier, seed)
